@@ -53,3 +53,5 @@ for _p in ('C11', 'C12', 'C13'):
 PROPS['C14'] = {'run': merge(suites.run_property_hist, suites.run_property_types)}
 for _p in ('C07', 'C08', 'C09', 'C10'):
     PROPS[_p] = {'run': suites.run_property_io}
+
+PROPS['C16'] = {'run': suites.run_property_portable}
